@@ -77,6 +77,10 @@ CHECKS = {
    text="Structured generators drive every image-level reader configuration, the three matrix decoders, the three bit-stream parsers and all row decoders with random, structured and mutated-valid inputs and rapid hint maps, under recover() and a watchdog; the oracle is totality: returns, result xor error, documented error kinds for image readers. Native coverage-guided fuzz targets for the parsers run in the thorough tier.",
    note="Totality over generated inputs only; a deep parser state can be missed. Hint values are well-typed. Suspected hangs are re-run alone with a 120 s limit before being reported.",
    tech="robustness property testing (rapid) + native go fuzzing with a totality oracle"),
+ "C12": dict(cat="exploration", ref="DESIGN.md §4 C12",
+   text="Robustness property testing of all 11 writers over generated contents (empty, plausible, arbitrary bytes, non-Latin, very long, mode-oscillation shapes), all 17 format values, negative / zero / large sizes and rapid hint maps with in- and out-of-range values, under recover() and a watchdog; oracle: returns, matrix xor error, matrix never smaller than the symbol it depicts nor (QR, 1-D) than the request.",
+   note="Totality over generated inputs only. The symbol's own dimensions are obtained from the same writer at 0x0 / margin 0 (QR: Encoder_encode) for the same content and non-geometry hints.",
+   tech="robustness property testing (rapid) with a totality and size oracle"),
 }
 
 NOT_YET = {}
